@@ -29,6 +29,9 @@ def worker(case, led):
         _, name, n, method, nroots, M, seed, tier = case
         # "+stackedK": the same Hamiltonian handed to the optimiser as a StackedMpo of K operators (its terms dealt round-robin; the pieces need not be Hermitian)
         full_name, stk = name, 0
+        inv = name.endswith("+inv")      # optimize_config.inverse = -1: the optimiser minimises -H (the documented switch for the highest states)
+        if inv:
+            name = name[:-4]
         if "+stacked" in name:
             name, k_ = name.split("+stacked")
             stk = int(k_)
@@ -41,6 +44,10 @@ def worker(case, led):
         else:
             Hopt = H
         Hd = Dn.dense_h(model, terms)
+        if inv:
+            # every oracle below is stated for the operator that is minimised: -H (reported values are eigenvalue estimates of -H)
+            H = H.scale(-1.0)
+            Hd = -Hd
         # (long chains: the half-filled sector, whose middle bonds reach the limit - that is what takes the local problem over the 1000-amplitude switch)
         for q in ([sectors[len(sectors) // 2]] if n >= 10 else (sectors[1:3] if len(sectors) > 2 else sectors[:1])):
             mask = S.sector_mask(model, q)
@@ -85,6 +92,8 @@ def worker(case, led):
             mps.optimize_config.procedure = [[Mv, 0.4], [Mv, 0.2], [Mv, 0.0], [Mv, 0.0], [Mv, 0.0]]
             mps.optimize_config.method = method
             mps.optimize_config.nroots = nroots
+            if inv:
+                mps.optimize_config.inverse = -1.0
             key = (full_name, n, str(q), method, nroots, M)
             rep = {"model": full_name, "nsites": n, "sector": q, "method": method, "nroots": nroots, "M": Mv, "seed": seed, "exact_levels": lam[:4].tolist(), "initial_guess": guess + (" of canonical operands" if prepared else ""),
                    "guess_meta": {"qnidx": int(mps.qnidx), "to_right": bool(mps.to_right), "bond_dims": [int(b) for b in mps.bond_dims]}}
@@ -205,6 +214,11 @@ def check(run):
                 for nroots, M in ((1, None), (1, 2), (2, None)):
                     cases.append(("chain", f"{name}+stacked{k_}", n, method, nroots, M, s, run.tier))
         cases.append(("chain", "spinqn-flux+stacked2", 10, "2site", 1, 16, s, run.tier))
+        # the switch inverse = -1 (highest states), alone and together with a StackedMpo, dense and iterative local solver
+        for nm, n_, M_ in (("spinqn+inv", 4, None), ("holstein+inv", 4, 3), ("spinqn+stacked2+inv", 4, None), ("holstein+stacked3+inv", 4, None), ("spinqn+stacked2+inv", 10, 16)):
+            for method in ("2site", "1site") if n_ < 10 else ("2site",):
+                for nroots in (1, 2) if n_ < 10 else (1,):
+                    cases.append(("chain", nm, n_, method, nroots, M_, s, run.tier))
     run_cases(run, worker, cases)
     # on-the-fly site swapping switched on (the property's quantifier includes it): the optimiser contract with the re-ordered operator as oracle - variational
     # bound, exactness at complete bond dimension, valid labels, the operator re-ordered consistently - is the one stated in props/C17 (worker_opt); here the
